@@ -31,7 +31,7 @@ ASSUMPTIONS = [
     "float <- anything but a number or a string; string <- anything but a string (strings for numbers are what the server documents or tolerates)",
     "the library's logger is left untouched for this property (VK_KEEP_LOG=1 is exported by ./check)",
 ]
-BUDGET = {"quick": {"examples": 2400}, "thorough": {"examples": 160000, "deadline_s": 1500}}
+BUDGET = {"quick": {"examples": 2400}, "thorough": {"examples": 160000, "deadline_s": 900}}
 
 CFG = gen.cfg(max_syms=10, p_range=60, p_menu=18, p_choice=10)
 
